@@ -393,11 +393,16 @@ func (r *vcRun) dump() (*vcState, map[string]bool) {
 // settle waits until every live job is parked in a gate and returns the state dumped at that moment.
 func (r *vcRun) settle() (*vcState, map[string]string, string) {
 	deadline := time.Now().Add(10 * time.Second)
+	files := map[string][]vcFileEntry{} // contents are dumped once per file: keep them over the retries
 	for {
 		st, live := r.dump()
 		if st == nil {
 			return nil, nil, "service loop does not answer (hang)"
 		}
+		for k, v := range st.Files {
+			files[k] = v
+		}
+		st.Files = files
 		parked := vcCtl.snapshot()
 		same := len(parked) == len(live)
 		for k := range live {
@@ -833,7 +838,7 @@ func (r *vcRun) scenario(w *bufio.Writer) {
 		r.t.Fatal(err)
 	}
 	r.mgr = mgr
-	evc, evClose := mgr.Listen()
+	evc, _ := mgr.Listen()
 	evDone := make(chan struct{})
 	go func() {
 		defer close(evDone)
@@ -868,7 +873,9 @@ func (r *vcRun) scenario(w *bufio.Writer) {
 			defer func() { time.Sleep(50 * time.Millisecond) }()
 		}
 		c := make(chan struct{})
-		go func() { evClose(); mgr.Close(); close(c) }()
+		// (calling the listener's closer AND Close can close the listener's channel twice when an event delivery is
+		// still in flight -- manager.go Close/Listen -- so only Close is used here)
+		go func() { mgr.Close(); close(c) }()
 		select {
 		case <-c:
 		case <-time.After(10 * time.Second):
